@@ -342,6 +342,11 @@ func vhC11Link(a []int, twin bool) {
 	bad.ByProducts = map[string]interface{}{"ratio": 0.5}
 	_, ferr := (&Metablock{Signed: bad}).GetSignableRepresentation()
 	vAssert("C11.non-integral-number-is-refused-with-an-error", ferr != nil)
+	// ... and nothing is signed for it, in either wrapper
+	bm := &Metablock{Signed: bad, Signatures: []Signature{}}
+	serr := bm.Sign(vhEdKey(0, true))
+	vAssert("C11.content-that-cannot-be-canonicalised-is-refused-by-sign-and-gets-no-signature", serr != nil && len(bm.Signatures) == 0)
+	vAssert("C11.content-that-cannot-be-canonicalised-is-refused-by-setpayload", (&Envelope{}).SetPayload(bad) != nil)
 	vReach("C11.end")
 }
 
